@@ -227,8 +227,7 @@ _CACHE = {}
 def reference_all(fam, kind, args, ulps=2):
     """closed-form values of all x-functions (kind 'x') or p-functions (kind 'p') of a family at args = [x_or_p, params...]
        (Python floats), each with the band [lo, hi] the closed form sweeps under `ulps`-ulp perturbations of every input
-       and of the intermediates the closed form itself prescribes to be formed (1-p; 1+alpha*y and (-log p)^-alpha - 1 for
-       the GEV).  Returns {which: (ref, lo, hi)} (mpf, possibly infinite)."""
+       and of the intermediates the closed form itself prescribes to be formed (1-p; alpha*y for the GEV).  Returns {which: (ref, lo, hi)} (mpf, possibly infinite)."""
     key = (fam, kind, tuple(bits(v) for v in args))
     if key in _CACHE:
         return _CACHE[key]
@@ -267,17 +266,13 @@ def reference_all(fam, kind, args, ulps=2):
             # the closed form is a function of ya1 = 1 + alpha*y, which any binary64 evaluation rounds
             y = a[2] * (a[0] - a[1])
             ya1 = 1 + a[3] * y
-            ends = [ya1 * (1 + s * ulps * U) + s * 3 * ulps * U * abs(a[3] * y) for s in (-1, 1)]
+            # (the code evaluates log1p(alpha*y): only the product alpha*y is rounded, and 1+alpha*y for the support test)
+            ends = [ya1 + s * 3 * ulps * U * abs(a[3] * y) for s in (-1, 1)]
             for e in ends:
                 absorb(gev_x(a[0], a[1], a[2], a[3], ya1=e))
             if min(ends) <= 0 < max(ends):       # the band straddles the support bound: sweep down to it
                 for k in range(1, 9):
                     absorb(gev_x(a[0], a[1], a[2], a[3], ya1=max(ends) * mpf(10) ** (-3 * k * k)))
-        else:
-            # ... and of (-log p)^(-alpha) - 1, whose minuend any binary64 evaluation rounds
-            d = ulps * U * _exp(-a[3] * _log(-_log(a[0]))) / abs(a[3] * a[2])
-            lo["invcdf"] -= d
-            hi["invcdf"] += d
     out = {k: (ref[k], lo[k], hi[k]) for k in ref}
     if len(_CACHE) > 200000:
         _CACHE.clear()
